@@ -180,6 +180,7 @@ struct Fail
     uint64_t outer = 0, inner = 0, count = 0;
     uint64_t round = 0;
     bool fatal = false;
+    std::string repro;   // result of the re-execution ("" = not attempted yet)
 };
 
 // ---------------------------------------------------------------------------------------------
@@ -193,6 +194,7 @@ public:
     bool ff = false;
     uint64_t ff_outer = 0, ff_inner = 0;
     bool describe = false;
+    uint64_t stop_after = 0;   // in-context re-execution: stop the enumeration of this outer index behind this inner index
     // single-case (replay) mode: failures are collected locally
     bool single = false;
     std::vector<Fail> single_fails;
@@ -227,6 +229,8 @@ public:
         }
         if (describe)
             return false;
+        if (stop_after && my > stop_after)
+            throw DeadlineHit{};
         if ((++tick & 127) == 0 && now_s() > deadline)
         {
             shm->deadline_hit = 1;
@@ -663,6 +667,22 @@ public:
             munmap(s, sizeof(WorkerShm));
         }
         munmap(g, gsz);
+        // Re-execute every failure that is new in this round while the round's body is still alive: first alone on
+        // fresh objects in a fresh process; if that does not reproduce it, once more IN CONTEXT (the enumeration of
+        // its outer index from the start up to the failing case): a failure that only shows there depends on state
+        // that earlier cases left behind in the process (hidden static / global / thread-local state).
+        for (auto& kv : fails)
+        {
+            Fail& f = kv.second;
+            if (f.round != rounds.size() || !f.repro.empty() || f.cs.empty() || !replay_case)
+                continue;
+            f.repro = reproduce(f);
+            if (f.repro == "diverged" && !f.fatal && reproduceInContext(body, f, false))
+                f.repro = "only-in-context";
+            // leftovers of EARLIER outer indices handled by the same worker process: sequential prefix of the round
+            if (f.repro == "diverged" && !f.fatal && reproduceInContext(body, f, true))
+                f.repro = "only-in-context";
+        }
         bool completed = !dl && !incomplete;
         if (!completed)
             exhaustive = false;
@@ -732,8 +752,14 @@ public:
             bool is_known = known.count(f.key) > 0;
             // re-execute once more on fresh objects; must reproduce the same key
             std::string repro = "not-replayable";
-            if (!f.cs.empty() && replay_case)
+            if (!f.repro.empty())
+                repro = f.repro;
+            else if (!f.cs.empty() && replay_case)
                 repro = reproduce(f);
+            if (repro == "only-in-context")
+                f.desc += " [NOTE: this case passes when executed alone on fresh objects in a fresh process, and fails again when the enumeration of its outer index is "
+                          "re-run from the start in a fresh process: the outcome depends on state that earlier calls left behind in the process (static / global / "
+                          "thread-local state inside the library)]";
             if (repro == "diverged" && f.key.rfind("timeout", 0) == 0)
             {
                 printf("NOTE property=%s a case hit the watchdog but completed when re-run alone with a x10 limit; not a hang, dropped\n",
@@ -964,6 +990,62 @@ private:
             got.push_back(f);
         }
         munmap(o, sizeof(Out));
+    }
+
+    bool reproduceInContext(const std::function<void(W&, uint64_t)>& body, const Fail& f, bool wholePrefix)
+    {
+        auto s = static_cast<WorkerShm*>(
+            mmap(nullptr, sizeof(WorkerShm), PROT_READ | PROT_WRITE, MAP_SHARED | MAP_ANONYMOUS | MAP_NORESERVE, -1, 0));
+        fflush(stdout);
+        pid_t pid = fork();
+        if (pid == 0)
+        {
+            int dn = open("/dev/null", O_WRONLY);
+            dup2(dn, 2);
+            W w;
+            w.shm = s;
+            w.deadline = now_s() + 900;
+            try
+            {
+                for (uint64_t o = wholePrefix ? 0 : f.outer; o <= f.outer; ++o)
+                {
+                    w.stop_after = o == f.outer ? f.inner : 0;
+                    s->outer = o;
+                    s->inner = 0;
+                    try
+                    {
+                        body(w, o);
+                    }
+                    catch (const DeadlineHit&)
+                    {
+                        if (o != f.outer)
+                            break;
+                    }
+                }
+            }
+            catch (...)
+            {
+            }
+            _exit(0);
+        }
+        int st;
+        double t = now_s();
+        while (waitpid(pid, &st, WNOHANG) == 0)
+        {
+            if (now_s() - t > 900)
+            {
+                kill(pid, SIGKILL);
+                waitpid(pid, &st, 0);
+                break;
+            }
+            usleep(2000);
+        }
+        bool found = false;
+        for (uint32_t k = 0; k < s->nfail; ++k)
+            if (f.key == s->fails[k].key)
+                found = true;
+        munmap(s, sizeof(WorkerShm));
+        return found;
     }
 
     std::string reproduce(const Fail& f)
